@@ -162,6 +162,19 @@ theorem avx512_rightshift_int8 (a m : Vector (BitVec 8) 64) : esl_avx512_rightsh
 theorem avx512_rightshift_int16 (a m : Vector (BitVec 16) 32) : esl_avx512_rightshift_int16 a m = or_si (shiftRight 0 a) m := by
   apply ext_lane 0; unfold esl_avx512_rightshift_int16 shiftRight; all_lanes
 
+/-- OR-ing the mask `{ fill, 0, …, 0 }` onto a zero-filled right shift is the right shift that fills with `fill`
+    (the documented use: `fill` = the lane encoding of -infinity) -/
+theorem rightshift_fill {w n : Nat} (a : Vector (BitVec w) n) (fill : BitVec w) :
+    or_si (shiftRight 0 a) (Vector.ofFn fun i => if i.val = 0 then fill else 0) = shiftRight fill a := by
+  apply ext_lane 0
+  intro j hj
+  unfold or_si shiftRight
+  rw [lane_zipWith _ _ _ _ _ hj, lane_ofFn _ _ _ hj, lane_ofFn _ _ _ hj, lane_ofFn _ _ _ hj]
+  by_cases h : j = 0
+  · simp [h]
+  · have hj' : j - 1 < n := by omega
+    simp [h, lane, hj']
+
 section floats
 variable {α : Type} (O : F32Ops α)
 
